@@ -175,7 +175,8 @@ CLAIMED["C10"] = {
              "the pattern).  QueryShape.tla enumerates 14 954 whole-query descriptors (returned items, DISTINCT, ORDER BY, SKIP/LIMIT, updating "
              "clauses; node and relationship queries) that are built, rendered, parsed and read back."),
     "design_ref": "DESIGN.md 4/C07+C10",
-    "note": ("NOT covered: create / merge patterns, literal types other than string and int, shortest-path builders; the Neo4j builder's deliberate "
+    "note": ("A literal catalogue (ints to the int64 limits, doubles needing 17 digits, bools, null, strings with quotes, backslashes, newlines, non-BMP runes) is rendered, parsed and "
+             "read back for type and value.  NOT covered: create / merge patterns, list / map literals, shortest-path builders; the Neo4j builder's deliberate "
              "rewrite of negated string predicates is excluded."),
     "technique": "TLA+ emit/parse/build model checked exhaustively over builder terms + the same terms replayed through the real builder, emitter and parser with TLC trace validation",
 }
